@@ -193,6 +193,8 @@ type Interp struct {
 	// field-based mod set (havoc) and reported to the plug-in through OnSkip.
 	Relevant     map[*ssa.Function]bool
 	OnSkip       func(in *Interp, fs *FState, site ssa.Instruction, callee *ssa.Function)
+	// taint: symbols whose value derives from a plug-in chosen source (e.g. File.metaActive)
+	taint map[int]bool
 	// OnLearnNil lets a plug-in move knowledge about an error symbol into its property state
 	OnLearnNil func(st *State, sym int, isNil bool)
 	cellsByField map[*types.Var][]*Cell
@@ -708,9 +710,60 @@ func structFieldOf(t types.Type, i int) *types.Var {
 	return t.Underlying().(*types.Struct).Field(i)
 }
 
+func symOf(v Value) int {
+	switch x := v.(type) {
+	case Top:
+		return x.sym
+	case NonNilV:
+		return x.sym
+	}
+	return 0
+}
+
+func (in *Interp) Taint(v Value) {
+	if s := symOf(v); s != 0 {
+		if in.taint == nil {
+			in.taint = map[int]bool{}
+		}
+		in.taint[s] = true
+	}
+}
+
+func (in *Interp) Tainted(v Value) bool { return in.taint[symOf(v)] && symOf(v) != 0 }
+
+// propagateTaint: the result of an arithmetic / conversion instruction over a tainted operand is tainted.
+func (in *Interp) propagateTaint(fs *FState, instr ssa.Instruction) {
+	if len(in.taint) == 0 {
+		return
+	}
+	switch instr.(type) {
+	case *ssa.BinOp, *ssa.UnOp, *ssa.Convert, *ssa.ChangeType:
+	default:
+		return
+	}
+	v, ok := instr.(ssa.Value)
+	if !ok {
+		return
+	}
+	res, ok := fs.env[v]
+	if !ok || symOf(res) == 0 {
+		return
+	}
+	if u, isU := instr.(*ssa.UnOp); isU && u.Op == token.MUL {
+		return // loads are sources, not propagation
+	}
+	for _, op := range instr.Operands(nil) {
+		if op != nil && *op != nil && in.Tainted(in.val(fs, *op)) {
+			in.Taint(res)
+			return
+		}
+	}
+}
+
 // step executes one non-terminator instruction on fs; may return several successor states (calls).
 func (in *Interp) step(fs *FState, instr ssa.Instruction) []*FState {
 	in.cur, in.curSt, in.subIdx = instr, fs.st, 0
+	defer in.propagateTaint(fs, instr)
 	switch x := instr.(type) {
 	case *ssa.Alloc:
 		t := x.Type().Underlying().(*types.Pointer).Elem()
@@ -1570,6 +1623,9 @@ func (in *Interp) joinNamed(old, n *State, ov, nv Value, tag string) Value {
 	delete(old.boolF, id)
 	if no != 0 && no == nn {
 		old.nilF[id] = no
+	}
+	if in.Tainted(ov) && in.Tainted(nv) {
+		in.Taint(Top{id})
 	}
 	return Top{id}
 }
